@@ -247,7 +247,13 @@ for k, v in TECH_ADD13.items():
     CLAIMED[k] = (t + v, txt, note, ref)
 
 TECH_ADD14 = {
- "C15": "; the sibling methods of one loader (Load, Exists, GetModifiedTime) apply the same sequence of path and string operations to the template name before touching the file system (R15.17)",
+ "C02": "; pointer-receiver methods of non-twig types called on package-level objects from the concurrent API belong to goroutine-safe packages (sync, atomic, regexp, log, os, time, reflect) or stand in a function that locks (R02.7)",
+ "C04": "; functions making a TextNode from a string hand the node that very parameter (R04.16); R04.3 counts only callees that can yield nodes",
+ "C05": "; a result of strings.Index & co. used as it stands as slice bound or index is known non-negative there: a test of the result, or Contains of the same haystack and needle, on every path (R05.20)",
+ "C07": "; every successful return of the handler registered for `apply` yields an *ApplyNode (R07.9)",
+ "C08": "; a function building a Unary/Binary/ConditionalNode from operand parameters never returns one of those operands or a part of one (R08.21); every call of the precedence function passes a value that can be one of the table's two-word operators (R08.22)",
+ "C15": "; the sibling methods of one loader (Load, Exists, GetModifiedTime) apply the same sequence of path and string operations to the template name before touching the file system (R15.17); map lookups on typed maps in Load/Exists of loaders are the two-result form (R15.18)",
+ "C16": "; outside Engine.Load no branch in render-reachable code is decided by Template.loader or Template.lastModified (R16.14)",
 }
 for k, v in TECH_ADD14.items():
     t, txt, note, ref = CLAIMED[k]
